@@ -1333,6 +1333,10 @@ const TOKENS: &[&str] = &[
     "a", "b", "s", "n", "Customer.firstName", "retract(", "log(", "update(", "set(", "ScheduleRule(",
     "SetWorkflowData(", "ActivateAgendaGroup(", "LogMessage(", "\"str\"", "'str'", "\"a b\"", "\"2024-01-01\"",
     "MAIN", "SENSORS", "\u{e9}", "\u{4e2d}", "\u{1f600}", "\u{301}", "\u{a0}", "\u{130}",
+    // escape sequences as they appear in JSON / Rust / C text (a reader that decodes them meets
+    // surrogates, truncated and out-of-range forms)
+    "\"\\uD83D\\uDE00\"", "\"\\uD800\"", "\"\\uDFFF x\"", "\"\\u00e9\"", "\"\\u12\"", "\"\\uZZZZ\"", "\"\\u{1F600}\"", "\"\\u{110000}\"",
+    "\"\\x41\\x\"", "\"\\n\\t\\0\"", "\"a\\\"b\"", "'\\uD800'", "\\u", "\\uD800", "\"\\",
 ];
 
 struct Corpus {
@@ -1612,7 +1616,10 @@ fn gen_expression(rng: &mut Rng) -> String {
             "a", "b", "c", "x", "s", "n", "t", "z", "big", "User.Age", "User.Name", "Order.quantity",
             "Order.price", "Customer.firstName", "Customer.age", "arr", "missing", "Missing.field", "?v",
         ];
-        const STRS: &[&str] = &["\"text\"", "'q'", "\"12\"", "\"\"", "\"a b\"", "\"1+2\"", "'\u{e9}'", "\"\u{1f600}\"", "true", "false", "null"];
+        const STRS: &[&str] = &[
+            "\"text\"", "'q'", "\"12\"", "\"\"", "\"a b\"", "\"1+2\"", "'\u{e9}'", "\"\u{1f600}\"", "true", "false", "null",
+            "\"\\uD83D\\uDE00\"", "\"\\uD800\"", "\"\\u00e9 \\uDFFF\"", "\"\\u12\"", "\"a\\\"b\"", "\"\\n\"",
+        ];
         match rng.below(10) {
             0..=4 => rng.pick(KEYS).to_string(),
             5..=7 => rng.pick(NUMS).to_string(),
@@ -1832,7 +1839,46 @@ fn gen_mutation(rng: &mut Rng, c: &Corpus) -> String {
 }
 
 /// Balanced or deliberately unbalanced bracket nesting up to depth 32 around a random token span.
+/// Well-formed logical expressions nested one level per term, an operator at EVERY level and
+/// string / number / field leaves: `((((a == "x" || a == "y") || a == "z") ...`, left- or
+/// right-leaning, 4..=40 levels, alone or as the condition of a rule / goal of a query. Plain text
+/// for a recursive-descent reader; a reader that re-parses a sub-expression per level doubles its
+/// work with every level.
+fn gen_nested_logic(rng: &mut Rng) -> String {
+    let depth = *rng.pick(&[4usize, 8, 12, 16, 20, 24, 28, 32, 40]);
+    let op = *rng.pick(&["||", "&&", "||", " OR ", " AND "]);
+    let mixed = rng.chance(1, 3);
+    let leaf = |rng: &mut Rng, i: usize| -> String {
+        let f = *rng.pick(&["a", "User.name", "Order.status", "x"]);
+        match rng.below(4) {
+            0 | 1 => format!("{} == \"v{}\"", f, i),
+            2 => format!("{} != 'w{}'", f, i),
+            _ => format!("{} > {}", f, i),
+        }
+    };
+    let left = rng.bool();
+    let mut e = leaf(rng, 0);
+    for i in 1..depth {
+        let o = if mixed && i % 2 == 0 { if op.contains('|') || op.contains("OR") { "&&" } else { "||" } } else { op };
+        let l = leaf(rng, i);
+        e = if left { format!("({} {} {})", e, o, l) } else { format!("({} {} {})", l, o, e) };
+        if rng.chance(1, 10) {
+            e = format!("!{}", e);
+        }
+    }
+    let s = match rng.below(5) {
+        0 => e,
+        1 | 2 => format!("rule \"R\" {{ when {} then y = 1; }}", e),
+        3 => format!("query \"Q\" {{\n goal: {}\n}}", e),
+        _ => format!("rule \"R\" {{ when x == 1 && {} then Log(\"m\"); }}", e),
+    };
+    clip(&s, MAX_LEN)
+}
+
 fn gen_nesting(rng: &mut Rng, c: &Corpus) -> String {
+    if rng.chance(1, 3) {
+        return gen_nested_logic(rng);
+    }
     let mut cs: Vec<char> = pick_seed(rng, c).chars().collect();
     let bs = token_boundaries(&cs);
     if bs.len() < 2 {
@@ -2720,7 +2766,7 @@ impl Check for C05 {
     }
     fn rule(&self) -> String {
         format!(
-            "Each input (UTF-8, <= 4096 bytes) is given to all 14 calls ({}) in a release and in a devopt (debug-assertions + overflow-checks) worker child on the main thread with an 8 MiB stack; evaluations = inputs, pairs::<profile> = (input, call) executions. Generators: raw bytes -> lossy UTF-8; token soup over GRL keywords/operators/delimiters/quotes/digits/multi-byte characters; valid frames of every input language with soup in the slots, query blocks with every numeric attribute drawn from the hostile-number table, and layered defmodule lattices (2-3 modules per layer, each importing every module of the layer below, 3..=32 layers as far as 4 KiB allow); 1-4 stacked mutations (splice, truncate, cut, duplicate, delete, swap, hostile character at a token boundary, replace, token insert/delete, short chain) of valid texts (every rule/query block of the repository's *.grl files plus hand-written seeds of all languages); bracket nesting of depth 1..=32 (balanced and unbalanced) around random token spans; short prefix chains (2..=64 repetitions) of {} units in {} contexts; arithmetic/logical expression trees of depth <= 4 over the keys of the small fact store, one in four with a hostile edit (run on the four expression calls only); stream patterns and joins from their grammar with hostile numbers, units and names (run on the two stream-pattern calls only) — all SAMPLED with the seed. SYSTEMATIC: a 2-, 3-, 4-byte or combining character inserted at every token boundary of the hand-written seeds (quick: one of the four per boundary; thorough: all four, plus the first 150 corpus texts of <= 400 bytes); every character-boundary truncation of selected seeds; the (unit x context) grid of prefix chains at the FULL 4 KiB length (quick: a sixth of the grid rotated by the seed; thorough: the whole grid). An input is non-trivial when at least one call returned a non-empty value or panicked/died (i.e. some parser engaged with it); distinct by input text.",
+            "Each input (UTF-8, <= 4096 bytes) is given to all 14 calls ({}) in a release and in a devopt (debug-assertions + overflow-checks) worker child on the main thread with an 8 MiB stack; evaluations = inputs, pairs::<profile> = (input, call) executions. Generators: raw bytes -> lossy UTF-8; token soup over GRL keywords/operators/delimiters/quotes/digits/multi-byte characters and string literals holding escape sequences (\\uXXXX incl. surrogates, truncated and out-of-range forms, \\u{{...}}, \\x, \\n, escaped quotes); valid frames of every input language with soup in the slots, query blocks with every numeric attribute drawn from the hostile-number table, and layered defmodule lattices (2-3 modules per layer, each importing every module of the layer below, 3..=32 layers as far as 4 KiB allow); 1-4 stacked mutations (splice, truncate, cut, duplicate, delete, swap, hostile character at a token boundary, replace, token insert/delete, short chain) of valid texts (every rule/query block of the repository's *.grl files plus hand-written seeds of all languages); bracket nesting of depth 1..=32 (balanced and unbalanced) around random token spans, and (a third of that generator) well-formed logical expressions nested one level per term with an operator at every level and string leaves, 4..=40 levels, left- or right-leaning; short prefix chains (2..=64 repetitions) of {} units in {} contexts; arithmetic/logical expression trees of depth <= 4 over the keys of the small fact store, one in four with a hostile edit (run on the four expression calls only); stream patterns and joins from their grammar with hostile numbers, units and names (run on the two stream-pattern calls only) — all SAMPLED with the seed. SYSTEMATIC: a 2-, 3-, 4-byte or combining character inserted at every token boundary of the hand-written seeds (quick: one of the four per boundary; thorough: all four, plus the first 150 corpus texts of <= 400 bytes); every character-boundary truncation of selected seeds; the (unit x context) grid of prefix chains at the FULL 4 KiB length (quick: a sixth of the grid rotated by the seed; thorough: the whole grid). An input is non-trivial when at least one call returned a non-empty value or panicked/died (i.e. some parser engaged with it); distinct by input text.",
             ENTRIES.join(", "),
             CHAIN_UNITS.len(),
             CHAIN_CONTEXTS.len()
